@@ -290,7 +290,14 @@ def rules():
                  r5_java_balance,
                  "necessary for a syntactically valid compilation unit: (), {}, [], <>, double quotes balanced by "
                  "induction over the tree"),
+        RuleSpec("C02-R6", "no `null` for a Java primitive: a bottom constant is never forced for a primitive type", 5,
+                 r6_no_null_for_primitives),
     ]
+
+
+def r6_no_null_for_primitives(repo):
+    from .c01 import r11_no_bottom_for_primitives
+    return r11_no_bottom_for_primitives(repo, "C02-R6")
 
 
 def r5_java_balance(repo):
